@@ -1,0 +1,36 @@
+//! `cfg(libp2p_verif)` hooks for the verification harness (property C40): raw access to
+//! `KeyBytes` and to the private `BucketIndex::{new, range}`. Only calls existing items.
+//! Declared as a child of `kbucket::key` (see the end of `key.rs`).
+
+pub use super::{Distance, KeyBytes, U256};
+use super::super::{bucket::KBucket, BucketIndex, KBucketRef};
+use super::Array;
+
+/// `KeyBytes` with exactly these 32 bytes (no hashing).
+pub fn key_from_raw(bytes: [u8; 32]) -> KeyBytes {
+    KeyBytes(Array::from(bytes))
+}
+
+/// The 32 bytes of a `KeyBytes`.
+pub fn key_raw(key: &KeyBytes) -> [u8; 32] {
+    let mut out = [0u8; 32];
+    out.copy_from_slice(key.0.as_slice());
+    out
+}
+
+/// `BucketIndex::new(d).map(BucketIndex::get)`
+pub fn bucket_index(d: &Distance) -> Option<usize> {
+    BucketIndex::new(d).map(|i| i.get())
+}
+
+/// `BucketIndex(i).range()` through the public `KBucketRef::range`
+pub fn bucket_range(i: usize) -> (Distance, Distance) {
+    let mut b = KBucket::<KeyBytes, ()>::default();
+    KBucketRef { index: BucketIndex(i), bucket: &mut b }.range()
+}
+
+/// `KBucketRef::contains` for the bucket with index `i`
+pub fn bucket_contains(i: usize, d: &Distance) -> bool {
+    let mut b = KBucket::<KeyBytes, ()>::default();
+    KBucketRef { index: BucketIndex(i), bucket: &mut b }.contains(d)
+}
